@@ -5,6 +5,7 @@
 import PosterModel.Script
 import PosterModel.Spec.Client
 import PosterModel.Spec.Server
+import PosterModel.Lemmas.WorldQuietIds
 
 open Poster Poster.Script
 
@@ -57,6 +58,41 @@ partial def processLines (h : IO.FS.Stream) (cur : Option (String × Array Strin
       out.flush
       processLines h none
     else processLines h (some (name, acc.push l))
+
+/-! ### `hyps`: the executable hypotheses of the script-level theorems, evaluated on a script -/
+
+/-- `HYP <name> nodup=<0|1> stepsok=<0|1> bad=<0|1>`:
+    `nodup`   = `(World.opIds evs).Nodup` (pairwise distinct OP identifiers; hypothesis of the C05/C14/C16 script-level theorems),
+    `stepsok` = `World.runOk cfg evs` (after every event the executor's drain reached quiescence within its fuel and no
+                SUBSCRIBE re-used a live stream's identifier; hypothesis of `sweep_irrelevant_partial`),
+    `bad`     = the script was rejected (`BADSCRIPT`) -/
+def hypsScript (name : String) (lines : List String) : String :=
+  let lines := lines.filter fun l => l ≠ "" ∧ !l.startsWith "#"
+  let (cfg?, evLines) := match lines with
+    | l :: rest => if l.startsWith "CFG" then (parseCfg ((l.splitOn " ").drop 1), rest) else (some {}, lines)
+    | [] => (some {}, [])
+  match cfg?, evLines.mapM parseEv with
+  | some cfg, some evs =>
+    let ids := World.opIds evs
+    let nodup := decide ids.Nodup
+    let ok := World.runOk cfg evs
+    let bad := (evs.foldl World.step { cfg := cfg }).bad
+    s!"HYP {name} nodup={if nodup then 1 else 0} stepsok={if ok then 1 else 0} bad={if bad then 1 else 0}"
+  | _, _ => s!"HYP {name} unparsed"
+
+partial def processHyps (h : IO.FS.Stream) (cur : Option (String × Array String)) : IO Unit := do
+  let line ← h.getLine
+  if line.isEmpty then return ()
+  let l := line.trimAscii.toString
+  match cur with
+  | none =>
+    if l.startsWith "BEGIN " then processHyps h (some ((l.drop 6).toString, #[]))
+    else processHyps h none
+  | some (name, acc) =>
+    if l = "END" then
+      IO.println (hypsScript name acc.toList)
+      processHyps h none
+    else processHyps h (some (name, acc.push l))
 
 /-! ### specification-side modes: the Lean spec judges bytes / generates inputs -/
 
@@ -138,10 +174,14 @@ def main (args : List String) : IO UInt32 := do
     let h ← IO.FS.Handle.mk file .read
     mapLines (IO.FS.Stream.ofHandle h) encserverLine
     return 0
+  | ["hyps", file] =>
+    let h ← IO.FS.Handle.mk file .read
+    processHyps (IO.FS.Stream.ofHandle h) none
+    return 0
   | ["model", file] =>
     let h ← IO.FS.Handle.mk file .read
     processLines (IO.FS.Stream.ofHandle h) none
     return 0
   | _ =>
-    IO.eprintln "usage: pmdriver model <script-file> | parsew <hex-file> | encserver <desc-file>"
+    IO.eprintln "usage: pmdriver model|hyps <script-file> | parsew <hex-file> | encserver <desc-file>"
     return 2
